@@ -103,9 +103,21 @@ def observe_cells(ctx, topo):
     smp = topo.sample('vertex', 0)
     X = numpy.asarray(smp.eval(ctx.geom), dtype=float)
     J = ctx.function.J(ctx.geom)
-    vals = topo.integrate_elementwise([J] + [ctx.geom[d] * J for d in range(ctx.dim)], degree=2)
-    vol = numpy.asarray(vals[0], dtype=float)
-    mom = numpy.stack([numpy.asarray(v, dtype=float) for v in vals[1:]], axis=1)
+    try:
+        vals = topo.integrate_elementwise([J] + [ctx.geom[d] * J for d in range(ctx.dim)], degree=2)
+        vol = numpy.asarray(vals[0], dtype=float)
+        mom = numpy.stack([numpy.asarray(v, dtype=float) for v in vals[1:]], axis=1)
+    except NotImplementedError:
+        # take() of a product topology offers only sample(): its elements are untrimmed products of lines, for which
+        # the 2-point Gauss scheme has equal weights (reference measure 1)
+        gs = topo.sample('gauss', 2)
+        jv, xv = gs.eval([J, ctx.geom])
+        vol = numpy.empty(n)
+        mom = numpy.empty((n, ctx.dim))
+        for i in range(n):
+            ind = gs.getindex(i)
+            vol[i] = jv[ind].mean()
+            mom[i] = (jv[ind, None] * xv[ind]).mean(0)
     out = []
     for i in range(n):
         V = X[smp.getindex(i)] * ctx.A          # hull vertices in atom units
@@ -156,7 +168,16 @@ def observe_facets(ctx, ftopo, voltopo=None):
     if voltopo is not None:
         funcs += [fn.opposite(ctx.geom), voltopo.f_index, fn.opposite(voltopo.f_index)]
     vals = smp.eval(funcs)
-    W = numpy.asarray(smp.integrate(smp.basis() * J), dtype=float) * ctx.A ** (ctx.dim - 1)
+    try:
+        W = numpy.asarray(smp.integrate(smp.basis() * J), dtype=float)     # per point: quadrature weight * J
+    except NotImplementedError:
+        # tensorial samples offer no basis(); their elements are untrimmed products of lines (reference measure 1) and
+        # the uniform scheme has equal weights
+        W = numpy.asarray(smp.eval(J), dtype=float)
+        for i in range(smp.nelems):
+            ind = smp.getindex(i)
+            W[ind] /= len(ind)
+    W = W * ctx.A ** (ctx.dim - 1)
     X = numpy.asarray(vals[0], dtype=float).reshape(len(W), ctx.dim)
     N = numpy.asarray(vals[1], dtype=float).reshape(len(W), ctx.dim)
     P, onint = _facet_ids(ctx, X)
@@ -223,9 +244,31 @@ def _unit(n):
     return n / numpy.sqrt((n * n).sum())
 
 
-def compare_boundary(ctx, topo, pB, vol2, what, group=None, allB=None):
+def _inside_trimmed_base_elements(ctx, topo, facets):
+    """root-cause classification: topo is hierarchical over a trimmed topology and every given facet atom lies strictly
+    inside the hull of a base element with a partial (WithChildren / Mosaic) reference, i.e. on a cut inside an element"""
+    if type(topo).__name__ != 'HierarchicalTopology' or type(topo.basetopo).__name__ != 'SubsetTopology':
+        return False
+    base = topo.basetopo
+    try:
+        cells = observe_cells(ctx, base)
+    except Exception:
+        return False
+    boxes = []
+    for (lv, ix, hf), v2, m6 in [c for c, ref in zip(cells, base.references) if type(ref).__name__ in ('WithChildrenReference', 'MosaicReference')]:
+        size = [ctx.A // 2 ** l for l in lv]
+        boxes.append([(2 * i * s, 2 * (i + 1) * s) for i, s in zip(ix, size)])
+    def inside(p):
+        for box in boxes:
+            if all(lo <= x <= hi and (x % 2 == 1 or lo < x < hi) for x, (lo, hi) in zip(p, box)):
+                return True
+        return False
+    return bool(boxes) and all(inside(p) for p in facets)
+
+
+def compare_boundary(ctx, topo, pB, vol2, what, group=None, allB=None, label=None):
     sig = nesting(topo)
-    label = 'boundary' if group is None else 'cut'
+    label = label or ('boundary' if group is None else 'cut')
     try:
         b = topo.boundary
         if group is not None:
@@ -240,9 +283,12 @@ def compare_boundary(ctx, topo, pB, vol2, what, group=None, allB=None):
     missing = sorted(set(want) - set(obs))
     extra = sorted(set(obs) - set(want))
     if missing:
-        raise Failure('{}:lost-facets:{}'.format(label, sig), '{}: {} lacks {} of {} facet atoms, e.g. at (doubled atom units) {}'.format(what, label, len(missing), len(want), missing[:4]),
+        cause = sig
+        if label == 'boundary' and not extra and _inside_trimmed_base_elements(ctx, topo, missing):
+            cause = 'hierarchical-refinement-of-trimmed-element'
+        raise Failure('{}:lost-facets:{}'.format(label, cause), '{}: {} lacks {} of {} facet atoms, e.g. at (doubled atom units) {}'.format(what, label, len(missing), len(want), missing[:4]),
                       dict(missing=missing, extra=extra))
-    if extra and group is not None and allB is not None and set(extra) <= allB:
+    if extra and label == 'cut' and allB is not None and set(extra) <= allB:
         raise Failure('cut:relabels-earlier-boundary:' + sig, '{}: boundary group {!r} contains {} facet atoms that an earlier operation exposed, not this trim, e.g. {}'.format(what, group, len(extra), extra[:4]),
                       dict(extra=extra))
     if extra:
@@ -354,7 +400,7 @@ class Replayer:
     def __init__(self):
         self.ctx = {}
         self.nodes = {}       # (base, L, json(hist prefix)) -> dict(topo, index, fail)
-        self.stats = dict(states=0, bstates=0, bfacets=0, ifacets=0, cuts=0, elements=0)
+        self.stats = dict(states=0, bstates=0, bfacets=0, ifacets=0, cuts=0, elements=0, groups=0)
 
     def context(self, base, L):
         if (base, L) not in self.ctx:
@@ -384,7 +430,7 @@ class Replayer:
                 except Exception as e:
                     raise Failure('op:{}:raises-{}:{}'.format(o['op'], type(e).__name__, nesting(parent['topo'])), '{}: the operation raised {!r}'.format(what, e))
             node['topo'] = topo
-            self.observe(ctx, topo, comp, preds[k], what, node, k)
+            self.observe(ctx, topo, comp, preds[k], what, node, k, leaf=(k == len(case['hist'])))
         except Failure as f:
             key = f.key
             if ctx.periodic2 and key.split(':')[0] in ('boundary', 'interfaces', 'cut'):
@@ -393,7 +439,7 @@ class Replayer:
             node['fail'] = (key, f.what, dict(base=case['base'], L=case['L'], hist=case['hist'][:k], detail=f.data))
         return node
 
-    def observe(self, ctx, topo, comp, p, what, node, k):
+    def observe(self, ctx, topo, comp, p, what, node, k, leaf=False):
         self.stats['states'] += 1
         node['index'] = compare_cells(ctx, topo, p['cells'], what)
         self.stats['elements'] += len(node['index'])
@@ -404,6 +450,12 @@ class Replayer:
             return
         self.stats['bstates'] += 1
         self.stats['bfacets'] += compare_boundary(ctx, topo, p['B'], p['vol2'], what)
+        if p.get('hasG') and leaf:
+            # named sides of the box: every group is the predicted part of the boundary
+            allB = {tuple(f['p']) for f in p['B']}
+            for name in (('left', 'right') if ctx.dim == 1 else ('left', 'right', 'bottom', 'top')):
+                compare_boundary(ctx, topo, p['G'][name], 0, what + ' [boundary group {}]'.format(name), group=name, allB=allB, label='group')
+            self.stats['groups'] += 1
         self.stats['ifacets'] += compare_interfaces(ctx, topo, p['I'], node['index'], what)
         if p['trim']:
             name = 'trim{}'.format(k)
